@@ -37,7 +37,7 @@ CHECKS = {
             "DESIGN.md section 4 (C02)"),
     "C09": ("model_checking",
             "TLA+ specs Lattice.tla + Embed.tla model-checked by TLC (admitted candidate sequences of an embedded text = shifted ones of the bare text when match spans exclude trailing blanks; counterexample in 'raw' mode); real lexer/sequence enumeration bound by LatticeTrace; embeddings judged by VariantTrace",
-            "TLC checks the embedding invariant over all small match universes (<= 3 matches on 4 positions, patterns with/without trailing optional whitespace, with/without suffix). The real _match_regex/_regex_stack output is judged equal to the specification's maximal gap-free paths on every bare and embedded text. Every grammar production and corpus expression is embedded in 0-3 inert words on each side (inertness decided by the library's own patterns, in context), latent on and off; TLC accepts iff the resolution equals the bare one and the span is the bare span shifted (and the whole expression for grammar productions).",
+            "TLC checks the embedding invariant over all small match universes (<= 3 matches on 4 positions, patterns with/without trailing optional whitespace, with/without suffix). The real _match_regex/_regex_stack output is judged equal to the specification's maximal gap-free paths on every bare and embedded text. Every grammar production and corpus expression is embedded in 0-3 inert words on each side (inertness decided by running the library's own patterns over the word alone, as the property says), latent on and off; TLC accepts iff the resolution equals the bare one and the span is the bare span shifted (and the whole expression for grammar productions).",
             "trusts: TLC; inert-word pool filtered by the tree's own patterns; regular-expression matching itself is observed, not modelled",
             "DESIGN.md section 4 (C09)"),
     "C10": ("model_checking",
